@@ -481,11 +481,13 @@ func init() {
 			"updates are issued at quiescent points (no concurrent level clock): UpdateBlind writes five fields without a lock and startGame reads them twice, so a tight concurrent updater would manufacture torn levels that the statement does not address",
 			"what pokerface charges follows its Meta (ante / blind) values",
 		},
-		Cases:            func(tier string) int { return map[string]int{"quick": 1200, "thorough": 20000}[tier] },
-		MinNontrivial:    func(tier string) int { return map[string]int{"quick": 600, "thorough": 10000}[tier] },
-		RequiredFeatures: func(string) []string { return []string{"update:between-hands", "update:mid-hand", "update:break-mid-hand", "paused-after-break-mid-hand", "update:break-ends", "created-on-break", "level-changed-while-hand-ran", "break-set-in-continue-interval", "break-ends-in-continue-interval", "break-during-open-retry", "update:through-the-manager", "update:overlapping-the-open", "update:level-clock-fires-several-times-across-the-open", "update:same-level-number-other-amounts"} },
-		CaseTimeout:      200e9,
-		InProc:           4,
-		Run:              c12Run,
+		Cases:         func(tier string) int { return map[string]int{"quick": 1200, "thorough": 20000}[tier] },
+		MinNontrivial: func(tier string) int { return map[string]int{"quick": 600, "thorough": 10000}[tier] },
+		RequiredFeatures: func(string) []string {
+			return []string{"update:between-hands", "update:mid-hand", "update:break-mid-hand", "paused-after-break-mid-hand", "update:break-ends", "created-on-break", "level-changed-while-hand-ran", "break-set-in-continue-interval", "break-ends-in-continue-interval", "break-during-open-retry", "update:through-the-manager", "update:overlapping-the-open", "update:level-clock-fires-several-times-across-the-open", "update:same-level-number-other-amounts"}
+		},
+		CaseTimeout: 200e9,
+		InProc:      4,
+		Run:         c12Run,
 	})
 }
